@@ -34,11 +34,12 @@ KINDS = {
     'asn4': {'peer_ip': '10.0.0.2', 'peer_as': 65002, 'asn4': True, 'addpath': False},
     'asn2': {'peer_ip': '10.0.0.3', 'peer_as': 65003, 'asn4': False, 'addpath': False},
     'ibgp-ap': {'peer_ip': '10.0.0.4', 'peer_as': 65001, 'asn4': True, 'addpath': True},
+    'asn4-aigp': {'peer_ip': '10.0.0.5', 'peer_as': 65005, 'asn4': True, 'addpath': False, 'aigp': True},
 }
 
 
 def counts(tier: str):
-    return (150, 75.0) if tier == 'quick' else (10000, 900.0)
+    return (300, 75.0) if tier == 'quick' else (10000, 900.0)
 
 
 def attr_blocks() -> list[bytes]:
@@ -57,11 +58,35 @@ def attr_blocks() -> list[bytes]:
     as4p = R.attribute(R.A_AS4_PATH, R.enc_as_path([(2, [4200000001, 65010])], True))
     unk = R.attribute(99, b'\x01\x02\x03', flags=0xC0)
     bad_origin = R.attribute(R.A_ORIGIN, b'\x00\x00')
+    aigp = R.attribute(R.A_AIGP, b'\x01\x00\x0b' + (1000).to_bytes(8, 'big'))
     return [
         o + p2 + nh, o + p4 + nh, o + p4b + nh + med, o + amb + nh, o + p2 + nh + com + med, o + p4 + nh + lp + com,
         o + p2 + nh + agg2, o + p4 + nh + agg4, o + R.attribute(R.A_AS_PATH, R.enc_as_path([(2, [23456, 65010])], False)) + nh + as4p,
         o + p4 + nh + unk, bad_origin + p4 + nh, bad_origin + p2 + nh,
+        # the same attribute value inside different blocks, on sessions that read it differently: an 8-byte AGGREGATOR (well-formed
+        # with 4-byte AS numbers, malformed without), a 6-byte one (the other way round), AIGP (kept only where it was enabled)
+        o + p2 + nh + agg4, o + p4 + nh + med + agg4, o + p4 + nh + agg2, o + p2 + nh + med + agg2,
+        o + p4 + nh + aigp, o + p2 + nh + aigp, o + p4 + nh + med + aigp,
     ]  # fmt: skip
+
+
+def mp_messages() -> list[bytes]:
+    """IPv6 unicast announces and withdraws carried with ordinary attributes (the attribute block holds MP_REACH / MP_UNREACH)"""
+    o = R.attribute(R.A_ORIGIN, b'\x00')
+    p2 = R.attribute(R.A_AS_PATH, R.enc_as_path([(2, [65002, 65010])], False))
+    p4 = R.attribute(R.A_AS_PATH, R.enc_as_path([(2, [65002, 65010])], True))
+    med = R.attribute(R.A_MED, (77).to_bytes(4, 'big'))
+    n6a = bytes([48, 0x20, 0x01, 0x0D, 0xB8, 0, 1])
+    n6b = bytes([48, 0x20, 0x01, 0x0D, 0xB8, 0, 2])
+    nh6 = bytes.fromhex('20010db8000000000000000000000009')
+    out = []
+    for path in (p2, p4):
+        for extra in (b'', med):
+            out.append(R.build_update(attrs=o + path + extra + R.attribute(R.A_MP_UNREACH, bytes([0, 2, 1]) + n6a)))
+            out.append(R.build_update(attrs=o + path + extra + R.attribute(R.A_MP_UNREACH, bytes([0, 2, 1]) + n6a + n6b)))
+            out.append(R.build_update(attrs=o + path + extra + R.attribute(R.A_MP_REACH, bytes([0, 2, 1, 16]) + nh6 + b'\x00' + n6a + n6b)))
+    out.append(R.build_update(attrs=R.attribute(R.A_MP_UNREACH, bytes([0, 2, 1]) + n6a)))
+    return out
 
 
 def nlri_sets() -> list[bytes]:
@@ -87,6 +112,7 @@ def pool() -> list[bytes]:
         out.append(R.build_update(withdrawn=bytes([16, 172, 16]), attrs=a, nlri=bytes([24, 192, 0, 2, 24, 192, 0, 3])))
     out.append(R.eor())
     out.append(R.eor(2, 1))
+    out.extend(mp_messages())
     return out
 
 
@@ -121,7 +147,7 @@ def simulate(plan: dict, scripts: dict, seed_salt: int = 0) -> dict:
         confs.append(
             {
                 'peer_ip': kd['peer_ip'], 'local_ip': LOCAL, 'local_as': 65001, 'peer_as': kd['peer_as'], 'router_id': LOCAL, 'hold': 180,
-                'families': [(1, 1), (2, 1)], 'adj-rib-in': True, 'caps': {'asn4': kd['asn4'], 'add-path': 'send/receive' if kd['addpath'] else 'disable'},
+                'families': [(1, 1), (2, 1)], 'adj-rib-in': True, 'caps': {'asn4': kd['asn4'], 'add-path': 'send/receive' if kd['addpath'] else 'disable', 'aigp': bool(kd.get('aigp'))},
                 'addpath_families': [(1, 1)] if kd['addpath'] else None,
                 'api': {'processes': ['h1'], 'receive': ['parsed', 'update']},
             }
